@@ -94,6 +94,20 @@ def check(ctx):
                     else:
                         if not (sel[1][0] == "var" and mentions_name):
                             vprob.append("%s/%s:%s" % (rn, al, txt[:50]))
+            # a convention that is converted by hand instead of through RenameRule::apply_to_variant gets the conversion serde defines for it:
+            # lower-casing the first character is camelCase (PascalCase keeps the Rust name, every other rule changes more than one character)
+            for conds_, sv_ in vpaths:
+                for c_ in conds_:
+                    m_ = re.fullmatch(r"matches!\(\s*\w+\s*,\s*(?:\w+\s*::\s*)*(\w+)\s*\)", c_) or re.fullmatch(r"\*?\w+\s*==\s*(?:\w+\s*::\s*)*RenameRule\s*::\s*(\w+)", c_)
+                    if not m_:
+                        continue
+                    txt_ = render(sv_)
+                    if "apply_to_variant" in txt_:
+                        continue
+                    lowers = bool(re.search(r"to_(ascii_)?lowercase\(next\(chars", txt_))
+                    conv = m_.group(1)
+                    if (lowers and conv != "CamelCase") or (not lowers and txt_ != "‹%s›" % vname and conv == "CamelCase") or (conv not in ("CamelCase", "PascalCase")):
+                        vprob.append("hand-written-%s:%s" % (conv, txt_[:40]))
         else:
             vprob.append("signature")
         if vprob:
@@ -101,6 +115,16 @@ def check(ctx):
                      "variant names are not decided as rename ▷ rename_all (variant rule) ▷ Rust name: %s" % [(c, render(v)) for c, v in vpaths][:6]))
         else:
             r1.ok("compute_variant_name: rename ▷ rename_all ▷ name")
+    # the configured default is snake_case whichever way the configuration is obtained (no file / file without the key): shared with C19-D3
+    from c19 import check_default_sources
+    vals_ = check_default_sources(S, r1, only={"default_field_case"})
+    for v_ in r1.violations:
+        v_.rule = r1.id
+    if vals_.get("default_field_case") == "snake_case":
+        r1.ok("default_field_case defaults to snake_case from every source")
+    else:
+        r1.bad(V(r1.id, "GenerateConfig", "field-case-default:%s" % vals_.get("default_field_case"), "default_field_case defaults to %r: unattributed fields "
+                 "would be renamed although serde keeps them" % vals_.get("default_field_case")))
     dfc = S.fn(None, "default_field_case")
     if dfc is not None:
         ps = ev.fn_paths(dfc)
